@@ -31,7 +31,11 @@ def run(ctx, replay):
         ctx.count_case((e["fam"], e["type"], e["nsat"], e["nsig"], e["len"], e["fill"], e["flag"], e["ts"]), True)
         fams[e["fam"]] = fams.get(e["fam"], 0) + 1
     ctx.extra["cases_by_family"] = fams
-    ctx.extra["decodes_accepted"] = sum(1 for e in events if e.get("accepted"))
+    ctx.extra["decodes_accepted"] = sum(1 for e in events if e.get("acc4") or e.get("acc7"))
+    drift = res["badk"].get("drift", [])
+    ctx.extra["model_drift"] = dict(events=len(drift), first=events[drift[0] - 1]) if drift else None
+    if drift:
+        vlib.log("NOTE model-drift C07: decoder acceptance differs from the guard model MSMGuards at %d frames (not a verdict)" % len(drift))
     for e in events[:2] + events[len(events) // 2:len(events) // 2 + 2] + events[-1:]:
         ctx.sample(e)
     for i in res["bad"]:
